@@ -200,6 +200,16 @@ func (c07) Gen(r *hx.Run) {
 		"3 3 T150 sa:31 sb:32 Oa:1 ga Ob:2 gb W W gb ga gb", "3 3 T150 sa:31 sb:32 sc:33 Oa:1 ga Ob:2 gb Oc:0 gc W W ga gb gc", "3 3 T300 sa:31 Oa:1 ga Oa:2 ga W W W ga ga",
 		"3 3 T400 sa:31 Oa:1 ga W W ga ga", "3 3 T400 sa:31 sb:32 Oa:1 Ob:2 ga W gb W ga gb", "3 3 T400 sa:31 Oa:2 ga W ga Oa:0 ga W W ga",
 	}
+	// a node freezes (keeps its connection, answers nothing); a slot of another node is handed over behind the proxy's back: the refresh
+	// the redirection triggers may ask the frozen node — the round is given up and the next one asks another node (F-07g)
+	kbq := keysByNode()
+	for i := 0; i < r.N(6, 30); i++ {
+		fz := rng.Intn(3)
+		from := (fz + 1) % 3
+		to := (fz + 2) % 3
+		k := kbq[from][rng.Intn(len(kbq[from]))]
+		basic = append(basic, fmt.Sprintf("3 3 T20 s%s:31 Q%d O%s:%d g%s W g%s g%s", k, fz, k, to, k, k, k))
+	}
 	// connections to two nodes are lost while a connect to a third one is pending (it neither succeeds nor is refused)
 	kb := keysByNode()
 	for _, p := range [][3]int{{0, 1, 2}, {1, 2, 0}, {0, 2, 1}} {
